@@ -455,20 +455,6 @@ theorem effLoop_succ (p : Prog) (f k : Nat) (s : State) (e : Nat) :
       else effLoop p f k s3 e := by
   rfl
 
-theorem noteRun_get (s : State) (id i : Nat) :
-    (noteRun s id).get i =
-      if id = i ∧ i < s.nodes.length then
-        { s.get i with seen := [], runs := (s.get i).runs + 1, running := true }
-      else s.get i := by
-  unfold noteRun
-  simp only [State.emit_get]
-  split
-  · rw [State.get_upd]
-  · rw [State.get_upd]; simp only [State.emit_get, State.emit_nodes]; rfl
-
-theorem noteRun_len (s : State) (id : Nat) : (noteRun s id).nodes.length = s.nodes.length := by
-  unfold noteRun; simp only [State.emit_nodes, State.upd_length]; split <;> rfl
-
 theorem effRun_spec {p : Prog} {f : Nat} (hu : UpdOK p (upd p f) f) (hf : p.length < f)
     (hpe : EffOK p) {s : State} {e : Nat} (h : Quiet p s) (hk : (s.get e).kind = .eff) :
     Quiet p (effRun p f s e none) ∧ ((effRun p f s e none).get e).kind = .eff := by
